@@ -1,2 +1,3 @@
 -- Root of the `Juniper` library: every property file (and through them models and proofs).
 import Juniper.Props.C04
+import Juniper.Props.C13
